@@ -246,7 +246,7 @@ func vNewSrvEnd(withSvc bool) *vSrvEnd {
 // attach registers a fake session the way wshandler does after the upgrade
 func (e *vSrvEnd) attach(key credentials.StaticSizedPublicKey, tr *vFakeTr, done chan struct{}) {
 	e.s.connMgr.registerConnection(key, vFakeSrvTr{tr})
-	go e.s.handleRead(key, done)
+	go e.s.handleRead(key, vFakeSrvTr{tr}, done)
 }
 
 func (e *vSrvEnd) pendingIDs(key credentials.StaticSizedPublicKey) []string {
